@@ -219,7 +219,30 @@ Section Monitor.
     end.
 
   Definition monitor (tr : list (op * out)) : option (nat * nat) := monitor_from (minit size) 0 tr.
+
+  (* the monitor's state after a trace; `dead` = the history left the operation discipline *)
+  Fixpoint mon_final (m : mon) (tr : list (op * out)) : mon :=
+    match tr with
+    | [] => m
+    | (op_, r) :: t => mon_final (snd (mstep m op_ r)) t
+    end.
 End Monitor.
+
+(* the abstract object: a FIFO of byte strings. What an operation with the observed output does to it *)
+Definition fifo_spec (q : list (list N)) (op_ : op) (r : out) : list (list N) :=
+  match op_, r with
+  | Push _ _, OCommit c => q ++ [c]
+  | Pop, OUnit => tl q
+  | _, _ => q
+  end.
+
+(* regions (offset, size) that do not overlap, pairwise *)
+Definition apart (p q : nat * nat) : Prop := fst p + snd p <= fst q \/ fst q + snd q <= fst p.
+Fixpoint all_apart (l : list (nat * nat)) : Prop :=
+  match l with
+  | [] => True
+  | p :: t => (forall q, In q t -> apart p q) /\ all_apart t
+  end.
 
 (* configurations: the storage holds at least the header written by reset *)
 Definition wf (c : cfg) : Prop := hdr <= Size c.
